@@ -90,6 +90,36 @@ def shard(args):
                 cases.append((key, cfg, ops))
                 meta[key] = (None, cfg, ops, style + ':coded:%s:%s' % (side, coding))
             continue
+        if i % 16 == 11:
+            # a final response that arrives while the request body it answers is still being uploaded (an early 4xx/5xx, or any status;
+            # with and without Expect: 100-continue): the upload must still be delivered as exactly its Content-Length bytes and the
+            # next request on the connection must follow it intact
+            r = grammar.Rng(seed * 7919 + i)
+            n = r.pick([2, 3, 7, 48, 300, 2000])
+            body = bytes(r.randrange(256) for _ in range(n)) if r.chance(0.5) else (b'GET /x HTTP/1.1\r\nHost: h\r\n\r\n' * 100)[:n]
+            expect = r.chance(0.6)
+            status = r.pick(['403 Forbidden', '413 Payload Too Large', '401 Unauthorized', '417 Expectation Failed', '500 Oops', '200 OK', '404 Not Found'])
+            head = ('%s /up HTTP/1.1\r\nHost: h\r\n%sContent-Length: %d\r\n\r\n' % (r.pick(['POST', 'PUT']), 'Expect: 100-continue\r\n' if expect else '', n)).encode()
+            rb = b'no' * r.randrange(0, 20)
+            res0 = ('HTTP/1.1 %s\r\nContent-Length: %d\r\n\r\n' % (status, len(rb))).encode() + rb
+            req1 = b'GET /next HTTP/1.1\r\nHost: h\r\n\r\n'
+            res1 = b'HTTP/1.1 200 OK\r\nContent-Length: 2\r\n\r\nok'
+            for c in range(4):
+                a = r.randrange(1, n)                    # at least one body byte is out before the answer, at least one after
+                b2 = r.randrange(a, n + 1)
+                ops = [(hxb.REQ, head + body[:a])] if r.chance(0.5) else [(hxb.REQ, head), (hxb.REQ, body[:a])]
+                ops += [(hxb.RES, res0)] if r.chance(0.5) else [(hxb.RES, res0[:r.randrange(1, len(res0))])]
+                if len(ops[-1][1]) < len(res0):
+                    ops.append((hxb.RES, res0[len(ops[-1][1]):]))
+                if b2 > a:
+                    ops.append((hxb.REQ, body[a:b2]))
+                ops += [(hxb.REQ, body[b2:] + req1)] if r.chance(0.5) else ([(hxb.REQ, body[b2:])] if b2 < n else []) + [(hxb.REQ, req1)]
+                ops += [(hxb.RES, res1), (hxb.CLOSE, None)]
+                cfg = {'PERSONALITY': r.randrange(10), 'DUMP': hxb.DUMP_TX | hxb.DUMP_BODY, 'TX_HOOKS': r.randrange(2)}
+                key = (i << 5) | c
+                cases.append((key, cfg, ops))
+                meta[key] = (None, cfg, ops, 'early_final:%s:%s' % ('expect' if expect else 'plain', status.split()[0]), body)
+            continue
         big = (i % 8 == 0)
         ex = grammar.gen_exchange(seed * 1000003 + i, {'res_fold': True, 'max_body': 70000 if big and i % 64 == 0 else (3000 if big else 200), 'multipart': False, 'max_n': 3})
         r = grammar.Rng(seed * 7919 + i)
@@ -113,9 +143,35 @@ def shard(args):
         if not l.startswith('D '):
             continue
         d = json.loads(l[2:])
-        ex, cfg, ops, style = meta[d['id']]
+        ex, cfg, ops, style = meta[d['id']][:4]
         out['n'] += 1
         out['distinct'].add(hashlib.sha1(repr(ops).encode('latin-1', 'replace')).digest()[:8])
+        if ex is None and style.startswith('early_final:'):
+            body = meta[d['id']][4]
+            out['framings']['early_final'] = out['framings'].get('early_final', 0) + 1
+            txs = d.get('tx') or []
+            errs = []
+            if len(txs) != 2 or txs[0] is None or txs[1] is None:
+                errs.append(('early_final_tx_count', '%d transactions reported for two requests and two responses' % len(txs)))
+            else:
+                t0, t1 = txs
+                bd = t0['req_body']
+                if bd['n'] != len(body) or ('d' in bd and oracle.b(bd['d']) != body):
+                    errs.append(('early_final_req_body', 'upload body handed to callbacks is %d bytes, the entity body is %d bytes' % (bd['n'], len(body))))
+                if t0['req_ent_len'] != len(body) or t0['req_msg_len'] != len(body):
+                    errs.append(('early_final_req_len', 'request_entity_len %d / request_message_len %d for a Content-Length body of %d bytes' % (t0['req_ent_len'], t0['req_msg_len'], len(body))))
+                if t0['req_progress'] == 5 and bd['marker'] < 1:
+                    errs.append(('early_final_no_end_marker', 'upload completed without an end-of-body marker'))
+                if t0['req_progress'] != 5 or t0['res_progress'] != 5 or t1['req_progress'] != 5 or t1['res_progress'] != 5:
+                    errs.append(('early_final_incomplete', 'progress %d/%d and %d/%d' % (t0['req_progress'], t0['res_progress'], t1['req_progress'], t1['res_progress'])))
+                if t1['uri'] != '/next' or t1['status_n'] != 200:
+                    errs.append(('early_final_next_request', 'the request after the upload is reported as %r with status %r' % (t1['uri'], t1['status_n'])))
+            for pv in d.get('viol', []):
+                out['monitor'].append((pv[0], pv[1], pv[2]))
+            for k, det in errs:
+                rp = fw.write_case_replay('C06', '%s-%d' % (k, d['id']), (d['id'], dict(cfg, DUMP=31), ops))
+                out['viol'].append((k, '%s [%s]' % (det, style), rp))
+            continue
         if ex is None:
             side = style.split(':')[2]
             out['framings']['coded'] = out['framings'].get('coded', 0) + 1
